@@ -135,6 +135,12 @@ TrRT ==
                    /\ Ev.same /\ Ev.wrap_lgk = obj[Ev.id].lgk /\ Ev.wrap_emp = (obj[Ev.id].c = 0))
   /\ UNCHANGED <<uni, ubits>>
 
+\* a sketch and its decoded copy after the same further updates: bit-identical estimate, bounds and image
+TrCmp ==
+  /\ IsEv("PCmp")
+  /\ On("C11") => (Ev.same /\ obj[Ev.a] = obj[Ev.b])
+  /\ UNCHANGED <<obj, bits, uni, ubits>>
+
 TrUNew ==
   /\ IsEv("PUNew")
   /\ uni' = Put(uni, Ev.id, NewUnion(Ev.lgk))
@@ -169,7 +175,7 @@ TrUToSk ==
 
 TrPanic == IsEv("Panic") /\ FALSE /\ UNCHANGED <<obj, bits, uni, ubits>>
 
-TNext == TrRun \/ TrNew \/ TrUpd \/ TrChk \/ TrRT \/ TrUNew \/ TrUUpd \/ TrUToSk \/ TrPanic
+TNext == TrCmp \/ TrRun \/ TrNew \/ TrUpd \/ TrChk \/ TrRT \/ TrUNew \/ TrUUpd \/ TrUToSk \/ TrPanic
 TSpec == TInit /\ [][TNext]_tvars
 
 Accepted ==
